@@ -99,6 +99,11 @@ def vecMon (mon : Mon) (id : Nat) (w : List String) (st : String) (a : KV) : Mon
      then (if sameList a "" l then good mon else bad mon s!"V{id} {op}: failed but the contents changed")
      else bad mon s!"V{id} {op} {x}: spurious out-of-memory") else
   if st != "ok" then bad mon s!"V{id} {op}: status {st}" else
+  if (op == "resize_fit" ∨ op == "resize_grow") ∧ big x then
+    -- a giant resize answered ok is never materialised by the monitor: only the header is judged
+    (if kvN a "n" ≠ x then bad mon s!"V{id} {op} {x}: answered ok but size() = {kvN a "n"}"
+     else if kvN a "cap" < x then bad mon s!"V{id} {op} {x}: answered ok but capacity() = {kvN a "cap"}"
+     else good mon) else
   let (mon, l', r) : Mon × List Nat × Option String := match op with
     | "append" => (mon, l ++ [xv], none)
     | "prepend" => (mon, xv :: l, none)
@@ -111,6 +116,9 @@ def vecMon (mon : Mon) (id : Nat) (w : List String) (st : String) (a : KV) : Mon
     | "concat" => (mon, l ++ (alGet mon.vecs x).getD [], none)
     | "swap" => (swapOwners { mon with vecs := alSet mon.vecs x l } s!"V{id}" s!"V{x}", (alGet mon.vecs x).getD [], none)
     | "release" => (mon, [], none)
+    | "move_from" | "move_ctor" =>
+      let mon1 := { mon with regions := mon.regions.filter (·.owner != s!"V{id}"), vecs := alSet mon.vecs x [] }
+      (swapOwners mon1 s!"V{id}" s!"V{x}", (alGet mon.vecs x).getD [], none)
     | "index_of" => (mon, l, some (firstIdx l xv))
     | "last_index_of" => (mon, l, some (lastIdx l xv))
     | "contains" => (mon, l, some (if l.contains xv then "1" else "0"))
@@ -152,7 +160,10 @@ def hashMon (mon : Mon) (id : Nat) (w : List String) (st : String) (a : KV) : Mo
       else if present ∧ kv a "removed" != some "1" then (mon, l, some s!"remove {k}: node reachable by get but not by _remove")
       else (mon, l.erase (k, h), none)
     | "swap" => (swapOwners { mon with hashes := alSet mon.hashes k l } s!"H{id}" s!"H{k}", (alGet mon.hashes k).getD [], none)
-    | "release" => (mon, [], none)
+    | "release" | "reset" => (mon, [], none)
+    | "move_from" =>
+      let mon1 := { mon with regions := mon.regions.filter (·.owner != s!"H{id}"), hashes := alSet mon.hashes k [] }
+      (swapOwners mon1 s!"H{id}" s!"H{k}", (alGet mon.hashes k).getD [], none)
     | _ => (mon, l, none)
   let mon := { mon with hashes := alSet mon.hashes id l' }
   match chk with
@@ -392,6 +403,8 @@ def strMon (mon : Mon) (id : Nat) (w : List String) (st : String) (a : KV) : Mon
     (if (op == "append_chars" ∨ op == "assign_chars" ∨ op == "pad_end") ∧ (y ≥ 2 ^ 40 ∨ x ≥ 2 ^ 40) ∧ same then good mon
      else bad mon s!"S{id} {op}: spurious out-of-memory or contents changed") else
   if st != "ok" then bad mon s!"S{id} {op}: status {st}" else
+  if ((op == "append_chars" ∨ op == "assign_chars") ∧ y ≥ 2 ^ 31) ∨ (op == "pad_end" ∧ x ≥ 2 ^ 31) then
+    bad mon s!"S{id} {op}: a request of more than 2^31 characters answered ok" else
   if isNum ∧ ¬ (y = 0 ∨ y = 2 ∨ y = 8 ∨ y = 10 ∨ y = 16) then bad mon s!"S{id} {op}: base {y} accepted" else
   let hx (sep : Nat) : List Nat :=
     let cells := bs.map fun b => [hexUpper (b / 16), hexUpper (b % 16)]
@@ -419,6 +432,7 @@ def strMon (mon : Mon) (id : Nat) (w : List String) (st : String) (a : KV) : Mon
     | "truncate" => (mon, l.take x, none)
     | "clear" | "reset" => (mon, [], none)
     | "swap" => ({ mon with strs := alSet mon.strs x l }, (alGet mon.strs x).getD [], none)
+    | "move_from" | "move_ctor" => ({ mon with strs := alSet mon.strs x [] }, (alGet mon.strs x).getD [], none)
     | _ => (mon, l, none)
   let mon := { mon with strs := alSet mon.strs id l' }
   match chk with
